@@ -392,6 +392,67 @@ pub fn schedule_part(run: &Run) -> Out {
         g.2 += 1;
         g.3 += st.par_calls;
     });
+    // ---- the progress-report path of solve_triangular ------------------------------------------------
+    // (more than 10 000 rows and right-hand-side columns, log level Debug: a configuration no small
+    // input reaches.)  A = I + two off-diagonal entries, Y = I; X must satisfy A X = Y exactly for the
+    // default schedule and for every schedule with one deviation among the last decisions.
+    {
+        let n = 10_001usize;
+        log::set_max_level(log::LevelFilter::Debug);
+        let window = if th { 24 } else { 2 };
+        for (t, off) in [(TriangularType::Lower, [(1usize, 0usize, 1i64), (n - 1, n - 2, 2)]), (TriangularType::Upper, [(0, 1, 1), (n - 2, n - 1, 2)])] {
+            if !th && t == TriangularType::Upper {
+                continue; // quick: the lower-triangular case only
+            }
+            let mut ae: Vec<(usize, usize, i64)> = (0..n).map(|i| (i, i, 1i64)).collect();
+            ae.extend(off.iter().cloned());
+            let a: SpMat<i64> = SpMat::from_entries((n, n), ae.clone());
+            let y: SpMat<i64> = SpMat::from_entries((n, n), (0..n).map(|i| (i, i, 1i64)));
+            // exact inverse of I + N (N^2 = 0 here): I - N
+            let mut want: std::collections::BTreeMap<(usize, usize), i64> = (0..n).map(|i| ((i, i), 1i64)).collect();
+            for &(i, j, v) in &off {
+                want.insert((i, j), -v);
+            }
+            let key = format!("spsched:solve-report-path:{}", if t == TriangularType::Lower { "L" } else { "U" });
+            let cfg = Config { workers: 2, choose_items: false, max_decisions: 1_000_000, min_items: 2, count_task_switches: true };
+            let body = || {
+                let x = solve_triangular(t, &a, &y);
+                let got: std::collections::BTreeMap<(usize, usize), i64> = x.iter().filter(|e| *e.2 != 0).map(|(i, j, v)| ((i, j), *v)).collect();
+                got
+            };
+            let (r0, tr0) = sched::run_scheduled(&cfg, &[], body);
+            let n0 = tr0.decisions.len();
+            if tr0.abort.is_some() || r0.is_err() {
+                run.fail(&key, &format!("default execution failed: {:?}", tr0.abort), json!({"n": n}));
+                continue;
+            }
+            let st = sched::explore_from(&cfg, Some(1), 10_000, n0.saturating_sub(window), body, |r, tr| match (&tr.abort, r) {
+                (Some(ab), _) => {
+                    run.fail(&key, &format!("aborted under schedule: {ab:?}"), json!({"n": n}));
+                    false
+                }
+                (None, Err(_)) => {
+                    run.fail(&key, "panicked outside a parallel call", json!({"n": n}));
+                    false
+                }
+                (None, Ok(got)) => {
+                    if got != want {
+                        let bad: Vec<_> = got.iter().filter(|(k, v)| want.get(k) != Some(v)).take(3).collect();
+                        run.fail(&key, &format!("X != A^-1 under a schedule with {} deviation(s): first differing entries {bad:?}", tr.preemptions()), json!({"n": n, "schedule_length": tr.decisions.len()}));
+                        return false;
+                    }
+                    true
+                }
+            });
+            run.add("c12_report_path_executions", st.executions);
+            let mut g = tot.lock().unwrap();
+            g.0 += st.executions;
+            g.1 += st.points;
+            g.2 += 1;
+            g.3 += st.par_calls;
+        }
+        log::set_max_level(log::LevelFilter::Off);
+    }
     let g = tot.into_inner().unwrap();
     Out {
         executions: g.0,
@@ -399,6 +460,7 @@ pub fn schedule_part(run: &Run) -> Out {
         json: json!({"cases": g.2, "executions": g.0, "lock_points_passed": g.1, "scheduled_parallel_calls": g.3,
                      "solve_cases": cases.len(), "schur_cases": scases.len(), "decomp_cases": dcases.len(),
                      "wide_schur_cases": run.get("c12_wide_schur_cases"),
+                     "solve_report_path": {"n": 10001, "log_level": "Debug", "executions": run.get("c12_report_path_executions"), "rule": "A = I + 2 entries, Y = I (10 001 columns = tasks); default schedule + every schedule with one deviation among the last 2 (thorough 24) decisions; quick: lower triangular only"},
                      "workers": "solve: 1,2,3 with item choice (all assignments and per-worker orders); schur: 2 with item choice; wide schur (64-96 columns): 2 with item choice, deviations (hand-overs + out-of-order items) <= 1 (thorough 2); decomp: 2, preemption bound 2 (thorough 3)"}),
     }
 }
